@@ -382,6 +382,11 @@ fn programs(family: &str) -> Vec<(String, Outcome)> {
             p(&st("    x := 1 and true\n"), Outcome::Reject);
             p(&st("    x := \"a\" or false\n"), Outcome::Reject);
             p(&st("    x := not 1\n"), Outcome::Reject);
+            p(&st("    x := -1\n    y := -1.5\n    -2\n"), Outcome::Accept);
+            p(&st("    -\"abc\"\n"), Outcome::Reject);
+            p(&st("    -true\n"), Outcome::Reject);
+            p(&st("    print(-nil)\n"), Outcome::Reject);
+            p(&st("    x := -\"abc\"\n"), Outcome::Reject);
             p(&st("    if 1 do\n        print(1)\n    end\n"), Outcome::Reject);
             p(&st("    if true do\n        print(1)\n    elif \"a\" do\n        print(2)\n    end\n"), Outcome::Reject);
             p(&st("    x := [1, \"a\"]\n"), Outcome::Reject);
@@ -456,6 +461,13 @@ fn programs(family: &str) -> Vec<(String, Outcome)> {
             p(&f("    if a > 10 do\n        ret 1\n    else do\n        ret 2.0\n    end\n", "int"), Outcome::Reject);
             p(&f("    loop a > 10 do\n        ret 1.0\n    end\n    2.0\n", "float"), Outcome::Accept);
             p(&f("    loop a > 10 do\n        ret 1.0\n    end\n    2\n", "float"), Outcome::Reject);
+            // a `ret` inside an `if` without `else`
+            p(&f("    if a > 10 do\n        ret 1\n    end\n    2\n", "int"), Outcome::Accept);
+            p(&f("    if a > 10 do\n        ret \"big\"\n    end\n    2\n", "int"), Outcome::Reject);
+            p(&f("    if a > 10 do\n        ret 1\n    elif a > 5 do\n        ret 2.5\n    end\n    2\n", "int"), Outcome::Reject);
+            p(&f("    if a > 10 do\n        ret 2.5\n    elif a > 5 do\n        ret 1\n    end\n    2\n", "int"), Outcome::Reject);
+            p(&f("    if a > 10 do\n        ret 2.5\n    elif a > 5 do\n        ret 1\n    else do\n        ret 3\n    end\n", "int"), Outcome::Reject);
+            p("f :: fn a: int do\n    if a > 1 do\n        ret\n    end\nend\nstart :: fn do\n    f(3)\nend\n", Outcome::Accept);
             p("f :: fn a: int do\n    ret 1\nend\nstart :: fn do\n    f(3)\nend\n", Outcome::Reject);
             p("f :: fn a: int do\n    ret\nend\nstart :: fn do\n    f(3)\nend\n", Outcome::Accept);
         }
